@@ -18,7 +18,7 @@ gvars == <<vars, hist, mark>>
 Rec(step) == hist' = IF KeepHist THEN Append(hist, step) ELSE <<step>>
 
 AllTargets == <<"resurrect", "loss", "oldovernew", "badread", "crashmid", "crashapply", "vanish", "hblost", "hbkeeps",
-                "busy", "read2get", "read2ids">>
+                "busy", "read2get", "read2ids", "idsflush">>
 ASSUME \A i \in 1..Len(AllTargets) : TLCSet(100 + i, 0)
 GInit == Init /\ hist = <<>> /\ mark = {}
 Mark(m) == mark' = mark \cup m
@@ -38,8 +38,9 @@ GCore ==
   \/ \E w \in Workers :
         \/ Claim(w) /\ Rec([a |-> "claim", w |-> w]) /\ Mark(IF ClaimResult(entries) = "busy" THEN {"busy"} ELSE {})
         \/ ReplayStart(w) /\ Rec([a |-> "rstart", w |-> w]) /\ Mark(IF pc'[w] = "failed" THEN {"vanish"} ELSE {})
-        \/ ReplayEnd(w) /\ Rec([a |-> "rend", w |-> w]) /\ NoMark
-        \/ Finalize(w) /\ Rec([a |-> "fin", w |-> w]) /\ Mark(IF Owns(w) THEN {} ELSE {"finlost"})
+        \/ ReplayEnd(w) /\ Rec([a |-> "rend", w |-> w]) /\ Mark(IF rd.st = "got" /\ rd.kind = "ids" THEN {"rendmid"} ELSE {})
+        \/ Finalize(w) /\ Rec([a |-> "fin", w |-> w])
+              /\ Mark((IF Owns(w) THEN {} ELSE {"finlost"}) \cup (IF Owns(w) /\ rd.st = "got" /\ rd.kind = "ids" THEN {"finmid"} ELSE {}))
         \/ Release(w) /\ Rec([a |-> "rel", w |-> w]) /\ NoMark
         \/ (cnt.hb < MaxHB /\ pc[w] = "replaying" /\ Heartbeat(w) /\ Rec([a |-> "hb", w |-> w])
                /\ Mark(IF Owns(w) THEN {"hbext"} ELSE {"hblost"}))
@@ -49,6 +50,7 @@ GCore ==
   \/ (cnt.reads < MaxReads /\ \E k \in {"get", "gettx", "ids"}, p \in Parts, v \in Workers :
          Read1(IF k = "ids" THEN "ids" ELSE "get", p) /\ Rec([a |-> "r1", kind |-> k, part |-> p, via |-> v]) /\ NoMark)
   \/ Read2 /\ Rec([a |-> "r2"]) /\ NoMark
+  \/ Read3 /\ Rec([a |-> "r3"]) /\ NoMark
 
 \* a walk that has nothing left to do idles (keeps -simulate walks alive up to the depth bound)
 GNext == GCore \/ (~ENABLED GCore /\ UNCHANGED vars /\ Rec([a |-> "idle"]) /\ NoMark)
@@ -74,8 +76,10 @@ Reached(TargetName) ==
     [] TargetName = "hblost"     -> Quiet /\ {"hblost", "finlost"} \subseteq mark
     [] TargetName = "hbkeeps"    -> Quiet /\ "hbext" \in mark /\ LastIs("fin") /\ \E p \in Parts : committed[p] # NoC
     [] TargetName = "busy"       -> Quiet /\ "busy" \in mark
-    [] TargetName = "read2get"   -> LastIs("r2") /\ rd.kind = "get" /\ rd.res[rd.part] # NoC
-    [] TargetName = "read2ids"   -> LastIs("r2") /\ rd.kind = "ids" /\ \E p \in Parts : rd.res[p] = "in"
+    [] TargetName = "read2get"   -> LastIs("r3") /\ rd.kind = "get" /\ rd.res[rd.part] # NoC
+    [] TargetName = "read2ids"   -> LastIs("r3") /\ rd.kind = "ids" /\ \E p \in Parts : rd.res[p] = "in"
+    \* a worker replays AND finalizes an entry between the inner listing of GetPartIds and its return
+    [] TargetName = "idsflush"   -> LastIs("r3") /\ rd.kind = "ids" /\ {"rendmid", "finmid"} \subseteq mark
     [] OTHER -> FALSE
 \* evaluated as an invariant with -workers 1: the first (= a shortest) behaviour that reaches each target is
 \* printed as a schedule; FALSE (TLC stops) once every target has been reached
